@@ -125,7 +125,14 @@ impl G {
                 // ways out that are neither a return nor a branch: unreachable, throw, tail call (void functions)
                 let o = match self.rng.gen_range(0..4) {
                     0 => json!({"o":"throw"}),
-                    1 if self.arity == 0 => json!({"o":"rcall","k":3}),
+                    1 if self.arity == 0 => {
+                        if self.rng.gen_bool(0.5) {
+                            json!({"o":"rcall","k":3})
+                        } else {
+                            self.body.push(json!({"o":"const","v":0}));
+                            json!({"o":"rcalli"})
+                        }
+                    }
                     _ => json!({"o":"unreachable"}),
                 };
                 self.body.push(o);
